@@ -23,6 +23,14 @@ int main(int argc, char **argv) {
     if (in0.count("STREAM")) { auto b = replay_io::bytes(in0["STREAM"]); std::string s(b.begin(), b.end()); size_t cut = std::min<size_t>(s.size(), replay_io::u64(in0["CUT"]));
       HttpClient c; FrRun one = fr_run(c, s, {}), two = fr_run(c, s, {cut});
       printf("one read: %s body %zu bytes; cut at %zu: %s body %zu bytes\n", one.threw ? "rejected" : one.done ? "complete" : "need more", one.body.size(), cut, two.threw ? "rejected" : two.done ? "complete" : "need more", two.body.size());
+      // R9 reference: skip interim 1xx blocks; the FINAL block's own fields decide. No Content-Length / Transfer-Encoding of its own (and a status that has a body) =>
+      // close-delimited: frameResponse must not report a complete message, whatever an interim response carried.
+      { size_t p = 0; for (;;) { size_t he = s.find("\r\n\r\n", p); if (he == std::string::npos) break; std::string blk = s.substr(p, he - p);
+          int sc = blk.size() >= 12 ? atoi(blk.substr(9, 3).c_str()) : 0;
+          if (sc >= 100 && sc < 200) { p = he + 4; continue; }
+          std::string lb = lower(blk); bool own = lb.find("\r\ncontent-length:") != std::string::npos || lb.find("\r\ntransfer-encoding:") != std::string::npos;
+          if (!own && sc != 204 && sc != 304 && one.done) replay_io::fail("R9 the final response carries no Content-Length / Transfer-Encoding of its own but was framed as complete with a body of " + std::to_string(one.body.size()) + " bytes (framing field of a discarded interim response carried over)");
+          break; } }
       if (one.done != two.done || one.threw != two.threw || one.body != two.body) replay_io::fail("R6/R7 framing depends on where the stream was cut (header-terminator scan state stale after a discarded interim response?)");
       replay_io::ok("same framing in one read and cut at " + std::to_string(cut)); return 0; } }
   std::string hs = "HTTP/1.1 200 OK\r\nContent-Length: 5\r\ncontent-length: 11", method = "GET";
